@@ -908,6 +908,42 @@ fn oracle_c02(fields: &[&str]) -> String {
                 return format!("oracle FAIL array container differs from vector ({def})");
             }
         }
+        // every narrower container against itself: the whole set, every tuple alone and a partition into
+        // chunks give the same stored elements, also through a pipeline and for sets of any length
+        {
+            let (h0, t0) = (25.0, 2010.0);
+            macro_rules! same_container {
+                ($label:expr, $make:expr, $dump:expr) => {{
+                    let mut whole = $make(&data[..]);
+                    let _ = ctx.apply(op, d(&dir), &mut whole);
+                    let whole_dump: Vec<String> = $dump(&whole);
+                    let mut pos = 0usize;
+                    let mut alone = true;
+                    while pos < data.len() {
+                        // singletons first, then chunks of growing size (reaching beyond any internal batch size)
+                        let len = if alone { 1 } else { (1 + rng.below(40) + pos / 2).min(data.len() - pos) };
+                        let mut part = $make(&data[pos..pos + len]);
+                        let _ = ctx.apply(op, d(&dir), &mut part);
+                        let part_dump: Vec<String> = $dump(&part);
+                        for k in 0..len {
+                            if part_dump[k] != whole_dump[pos + k] {
+                                return format!("oracle FAIL {}: tuple {} gives {} in a chunk of {len} but {} in the whole set of {} ({def})", $label, pos + k, part_dump[k], whole_dump[pos + k], data.len());
+                            }
+                        }
+                        pos += len;
+                        if pos >= 3 {
+                            alone = false;
+                        }
+                    }
+                }};
+            }
+            let d2 = |v: &Vec<Coor2D>| -> Vec<String> { v.iter().map(|c| format!("{:016x},{:016x}", c[0].to_bits(), c[1].to_bits())).collect() };
+            let d3 = |v: &Vec<Coor3D>| -> Vec<String> { v.iter().map(|c| format!("{:016x},{:016x},{:016x}", c[0].to_bits(), c[1].to_bits(), c[2].to_bits())).collect() };
+            same_container!("Vec<Coor2D>", |s: &[Coor4D]| s.iter().map(|c| Coor2D([c[0], c[1]])).collect::<Vec<Coor2D>>(), d2);
+            same_container!("Vec<Coor3D>", |s: &[Coor4D]| s.iter().map(|c| Coor3D([c[0], c[1], c[2]])).collect::<Vec<Coor3D>>(), d3);
+            same_container!("(Vec<Coor2D>, height, epoch)", |s: &[Coor4D]| (s.iter().map(|c| Coor2D([c[0], c[1]])).collect::<Vec<Coor2D>>(), h0, t0), |w: &(Vec<Coor2D>, f64, f64)| d2(&w.0));
+            same_container!("(Vec<Coor3D>, epoch)", |s: &[Coor4D]| (s.iter().map(|c| Coor3D([c[0], c[1], c[2]])).collect::<Vec<Coor3D>>(), t0), |w: &(Vec<Coor3D>, f64)| d3(&w.0));
+        }
         // 3D tuples with a fixed epoch: (Vec<Coor3D>, t) against 4D tuples carrying that epoch
         let t0 = 2010.0;
         let at: Vec<Coor4D> = data.iter().map(|c| Coor4D([c[0], c[1], c[2], t0])).collect();
